@@ -29,6 +29,11 @@ SEQ0 = ('sym', 'st.mapper_seq', 0, 65535)
 def run(tier):
     rep = Report('C08', tier)
     prog = load_core('systemd')
+    # premise of everything decided per interface record: the lookup hands out the record keyed by the interface (hit only after
+    # comparing the context), creates an all-zero one only on a miss, and never stores into or re-links an existing record
+    rep.rule('R08.7', 'the interface-record lookup: hit only on an equal context, fresh record all-zero and keyed by the context, existing records untouched', floor=3)
+    from .state_record import check_state_for_iface
+    check_state_for_iface(rep, prog, 'R08.7')
     ix = prog.unit(BLOCK_UNIT)
     global BUILDER
     try:
